@@ -29,6 +29,7 @@ RULE = (
     'edit touches a tagged argument.'
 )
 RULE += (' ' + 'Also generated: tags on value-less positional-only parameters of a callable without **kwargs (also at the root), set nodes and plain attribute-holder objects as mutable leaves (deep copies must not share them; they are mutated on the copy).')
+RULE += (' ' + 'Round 7: nodes over a callable with Annotated parameters (also as root) whose annotation tags were cleared before the copy.')
 RULE += (' ' + 'Rounds 3-5: experimental DictConfig / NamespaceConfig nodes (keys also set by attribute, one named kwargs).')
 ASSUMPTIONS = [
     'in-place mutation of argument values is only applied to deep copies (shallow copies share values by design)',
@@ -50,8 +51,8 @@ def strategy_(draw, tier):
              # every other node kind of the shared generator (each once)
              'box', 'TV', 'ddict', 'mdict', 'kdict', 'fset', 'ltuple', 'ntuple', 'Bann', 'Bmut1', 'Bmutnest',
              'Bpo3', 'Bdc', 'Bempty', 'AFP', 'odict', 'dcinst', 'Bclash'],
-      fns=['things:f2', 'things:h1', 'things:Base', 'things:LeafCls'], root_kinds=['B', 'Bpos', 'Bpo', 'Bdictcfg'],
-      p_alias=0.8, allow_copyof=False))
+      fns=['things:f2', 'things:h1', 'things:Base', 'things:LeafCls'], root_kinds=['B', 'Bpos', 'Bpo', 'Bdictcfg', 'Bann'],
+      p_alias=0.8, allow_copyof=False, clear_ann_tags=True))
   op = draw(st.sampled_from(DEEP + SHALLOW))
   edits = []
   for _ in range(draw(st.integers(1, 8))):
